@@ -460,6 +460,9 @@ class TermBuilder:
         j = Sym("$p%d" % L.lineno)
         body = tm.substitute(g, {isym.key: j})
         init = self._def_term(name, d0)
+        if not tm.mentions(body, j):
+            # the same amount every iteration: a running offset k * step
+            return tm.add(init, tm.mul(body, tm.add(isym, tm.neg(it.lo))))
         return tm.add(init, Sum(body, ((j, Range(it.lo, isym)),)))
 
     def _def_term(self, name: str, d: Node) -> T:
